@@ -412,11 +412,9 @@ func (a *App) Run(w Widget) error {
 					return err
 				}
 			case vaxis.FocusIn:
-				cmd, err := w.HandleEvent(MouseEnter{}, TargetPhase)
-				if err != nil {
-					return err
-				}
-				a.handleCommand(cmd)
+				// Nothing is under the pointer until the terminal
+				// reports a mouse event; the hit test then delivers
+				// MouseEnter to every widget it finds
 			case vaxis.FocusOut:
 				mh.mouse = nil
 				err := mh.mouseExit(a)
